@@ -325,7 +325,10 @@ def main():
         rp3 = dict(kind="propagate-after-matrices", K=K.tolist(), dt=dt,
                    Nt=Nt)
         ck.case("matches-expm-after-matrices", ("num", s), sample=smp3)
-        if sums3 > 1e-12 * Nt:
+        # (after an edit of the rates the step may lie outside the stability
+        # region of the expansion; the sum is then conserved relative to the
+        # size of the numbers)
+        if sums3 > 1e-12 * Nt * max(1.0, float(numpy.abs(pops3).max())):
             ck.violation("sum-conserved", "propagate-after-matrices", smp3,
                          rp3)
         if err3 > 10 * bound3 + 1e-12:
